@@ -200,6 +200,62 @@ def gen_htab(rng, nops):
     return 'htab %d %s : ' % (min_size, ' '.join(map(str, table))) + ' ; '.join(ops)
 
 
+def gen_htab_churn(rng, nops):
+    """round 3: histories at a SMALL, roughly constant population over MANY distinct keys, so that the table
+    never grows on its own account while insert/delete pairs keep turning empty entries into tombstones:
+    what bounds the number of non-empty entries (live + tombstones <= els_bound <= entries/2, rebuild when
+    the element array is full) is exercised for dozens of steps.  Deletions are aimed at the two ends of
+    the element array (the newest element = last slot, the oldest = first slot) and at random ones;
+    absent keys are looked up throughout (a probe for an absent key ends only at an empty entry)."""
+    nkeys = rng.choice([12, 24, 40, 64])
+    mode = rng.random()
+    if mode < 0.35:
+        table = list(range(nkeys))                                    # identity: every key its own entry
+        rng.shuffle(table)
+    elif mode < 0.5:
+        table = [k * rng.choice([3, 5, 7]) + 1 for k in range(nkeys)]
+    elif mode < 0.7 and MIRHASH:
+        table = MIRHASH[rng.choice(sorted(MIRHASH))][:nkeys]
+    elif mode < 0.85:
+        table = [rng.randrange(1 << 32) for _ in range(nkeys)]
+    else:
+        table = [rng.choice(HASHES) for _ in range(nkeys)]
+    min_size = rng.choice([0, 2, 4, 4, 5, 8, 8, 16])
+    base = rng.randint(0, max(0, min(min_size, nkeys // 2) - 1))      # resident population below els_size
+    order = []                                                        # live keys, oldest first
+    ops = []
+    absent = list(range(nkeys))
+    rng.shuffle(absent)
+
+    def ins():
+        k = absent.pop(0)
+        order.append(k)
+        ops.append('%s %d %d' % (rng.choice(['ins', 'ins', 'rep']), k, rng.randint(0, 9)))
+
+    def dele(k):
+        order.remove(k)
+        absent.append(k)                                              # comes back much later (other keys first)
+        ops.append('del %d' % k)
+    for _ in range(base):
+        ins()
+    style = rng.choice(['newest', 'newest', 'oldest', 'random', 'mixed'])
+    while len(ops) < nops and absent:
+        for _ in range(rng.choice([1, 1, 1, 2, 3])):
+            if absent:
+                ins()
+        r = rng.random()
+        if r < 0.25 and absent:
+            ops.append('find %d' % rng.choice(absent))
+        elif r < 0.3:
+            ops.append(rng.choice(['num', 'each', 'coll']))
+        while len(order) > base:
+            st = style if style != 'mixed' else rng.choice(['newest', 'oldest', 'random'])
+            dele(order[-1] if st == 'newest' else order[0] if st == 'oldest' else rng.choice(order))
+        if rng.random() < 0.2 and absent:
+            ops.append('find %d' % rng.choice(absent))
+    return 'htab %d %s : ' % (min_size, ' '.join(map(str, table))) + ' ; '.join(ops)
+
+
 def htab_seq_sweep(L, tables, nkeys=3):
     alpha = []
     for k in range(nkeys):
@@ -427,7 +483,10 @@ def script_stream(chk):
         for ss in subseeds:
             rng = chk.rng(kind + ss)
             for i in range(budget[kind] // len(subseeds)):
-                sc = GEN[kind](rng, rng.choice([3, 8, 20, 60] if quick else [3, 8, 20, 60, 200]))
+                if kind == 'htab' and i % 4 == 1:
+                    sc = gen_htab_churn(rng, rng.choice([20, 40, 80, 160]))
+                else:
+                    sc = GEN[kind](rng, rng.choice([3, 8, 20, 60] if quick else [3, 8, 20, 60, 200]))
                 if kind == 'htab' and i % 5 == 4:
                     sc = 'htabn' + sc[4:]      # the same table created with free_func == NULL
                 yield 'random', sc
